@@ -23,11 +23,26 @@ def gen(tier, rng, shard, nshards):
         depth = int(S.pick(rng, [0, 1, 1, 2]))
         if fn == "cholesky":
             node = W.gen_invertible(rng, depth, dt, n, True, leaf_kinds=KINDS, comps=COMPS)
+        elif rng.random() < 0.3:
+            # plu of a (declared) positive definite operator: partial pivoting still exchanges rows unless the diagonal dominates
+            node = W.gen_invertible(rng, depth, dt, n, True, leaf_kinds=KINDS, comps=COMPS)
+            node = spread(node, 100.0 if depth == 0 else 12.0)  # (a wide spectrum: off-diagonal entries larger than diagonal ones)
         else:
             node = W.gen_invertible(rng, depth, dt, n, False, leaf_kinds=KINDS + ["Dense"], comps=COMPS)
         if dt == "f8" and rng.random() < 0.2:
             node = intify(node, fn)  # integer-dtype Dense operands (cola's own docstrings build operators from integer arrays)
         yield {"spec": node, "fn": fn}
+
+
+def spread(node, ratio):
+    """The same tree with the eigenvalues of every Hermitian Dense leaf spread geometrically over [1, ratio]."""
+    if not isinstance(node, dict):
+        return node
+    out = {k: ([spread(c, ratio) for c in v] if k == "args" else (spread(v, ratio) if k == "arg" else v)) for k, v in node.items()}
+    if out.get("k") in ("Dense", "Generic") and out.get("gen") == "herm" and "eigs" in out and len(out["eigs"]) > 1:
+        m = len(out["eigs"])
+        out["eigs"] = [float(ratio ** (j / (m - 1))) for j in range(m)]
+    return out
 
 
 def intify(node, fn):
@@ -109,6 +124,9 @@ def _walk_ops(op, depth=0):
         yield from _walk_ops(inner, depth + 1)
 
 
+ctx_top = {}
+
+
 def evaluate(ctx, node, fn):
     from cola.linalg.decompositions.decompositions import cholesky, plu
     ref = R.dense(node)
@@ -154,6 +172,9 @@ def evaluate(ctx, node, fn):
     if any(D.shape != (n, n) for D in dens):
         return out + [("factor-shapes", False, {"shapes": [list(D.shape) for D in dens], "n": n})]
     out.append(("P-is-permutation", pattern_ok(P_, "perm", 1e-6), None))
+    if node is ctx_top.get("node"):
+        ctx.count("plu_row_exchanges", ("declared-PSD:" if node["k"] == "Annot" and node.get("name") == "PSD" else "undeclared:") +
+                  ("some" if np.abs(P_ - np.eye(n)).max(initial=0.0) > 0.5 else "none"))
     out.append(("lower-triangular", pattern_ok(L_, "lower", tol), {"max_above": float(np.abs(np.triu(L_, 1)).max(initial=0.0))}))
     out.append(("upper-triangular", pattern_ok(U_, "upper", tol), {"max_below": float(np.abs(np.tril(U_, -1)).max(initial=0.0))}))
     err = float(np.abs(P_ @ L_ @ U_ - ref.M).max(initial=0.0))
@@ -174,6 +195,7 @@ def run_case(ctx, case):
     for k in set(R.kinds(node)):
         ctx.count("kind", k)
     ctx.count("fn", fn)
+    ctx_top["node"] = node
     results = evaluate(ctx, node, fn)
     for oracle, ok, detail in results:
         if ok:
